@@ -213,8 +213,8 @@ class SimGateway:
         rec["ack_behaviour"] = k
         tcp = via[0] == "tcp"
         process = False
-        if tcp and svc == W.TUNNEL_REQ:
-            # no acknowledgements on TCP tunnelling
+        if tcp:
+            # no acknowledgements and no counter evaluation on TCP (tunnelling and device management)
             process = True
         elif seq == ch.rx_expected:
             process = True
@@ -229,7 +229,7 @@ class SimGateway:
         def ack(c=cid, s=seq, st=0, lat=None):
             self._reply(via, W.frame(ack_svc, bytes((4, c, s, st))), lat=lat, to=to)
 
-        if not (tcp and svc == W.TUNNEL_REQ):
+        if not tcp:
             if k in ("ok", "ack"):
                 ack(lat=b.get("lat"))
             elif k == "none":
